@@ -118,3 +118,37 @@ def confirm_value(ctx, rp):
     r = ctx.tlc_trace("ValueTrace", "ValueTrace.cfg", p + ".out", label="confirmation")
     rp["observed_again"] = read_ndjson(p + ".out")
     return r["viols"]
+
+
+def describe_chk(o, v):
+    return "diagnostics observed: %s | expected name diagnostics: %s | valid=%s | text: %r" % (json.dumps(o["obs"].get("diags"))[:400], json.dumps(o.get("expnames"))[:300], o.get("valid"), o["text"][:300])
+
+
+def c16(ctx):
+    ctx.build()
+    n = 500 if ctx.tier == "quick" else 4000
+    for mode, tag in (("names", "valid programs and their name edits"), ("plain", "valid programs")):
+        gp, cnt = syntax_gen(ctx, ctx.seed, n, mode, "Syntax_static.cfg", "static_" + mode, trees_cmd="chk-trees")
+        op = os.path.join(ctx.work, "obs_%s.ndjson" % mode)
+        s1 = ctx.vh_json(["chk-check", gp, op])
+        judge_front(ctx, op, "FrontTrace_C16.cfg", "C16", describe_chk, replay_kind="diag")
+        ctx.cov["evaluations"] += s1["cases"]
+        ctx.cov["distinct_nontrivial"] += s1["with_name_diagnostics"]
+        ctx.cov["traces_validated_against_impl"] += s1["cases"]
+        ctx.cov["statically_valid_cases"] = ctx.cov.get("statically_valid_cases", 0) + s1["valid"]
+        ctx.cov["samples"] += (s1["samples"] or [])[:2]
+
+
+def c17(ctx):
+    ctx.build()
+    n = 1500 if ctx.tier == "quick" else 12000
+    tp = os.path.join(ctx.work, "trees_types.ndjson")
+    gp, cnt = syntax_gen(ctx, ctx.seed, n, "types", "Syntax_static1.cfg", "types", trees_cmd="chk-trees")
+    op = os.path.join(ctx.work, "obs_c17.ndjson")
+    s1 = ctx.vh_json(["c17-check", gp, tp, op])
+    judge_front(ctx, op, "FrontTrace_C17.cfg", "C17", lambda o, v: "check: %s | run: %s | vars: %s | text: %r" % (json.dumps(o["obs"].get("diags"))[:300], o["run"], o["rawvars"], o["text"][:300]), replay_kind="c17")
+    ctx.cov["evaluations"] += s1["cases"]
+    ctx.cov["distinct_nontrivial"] += s1["clean_check"]
+    ctx.cov["traces_validated_against_impl"] += s1["cases"]
+    ctx.cov["clean_but_failing_at_run_time"] = s1["clean_but_failing_at_run_time"]
+    ctx.cov["samples"] += (s1["samples"] or [])[:2]
